@@ -192,3 +192,35 @@ fix_no_items = Unit(
 )
 
 UNITS = [subn_count, subn_fix_func, string_lines, range_hull, subst_head, apply_empty, fix_no_items]
+
+
+# ----------------------------------------------------------------------------- find_replace: which replacements skip the parenthesisation probe
+NOT_A_PRIMARY = [("bare-tuple", "a, b"), ("one-element-tuple", "a,"), ("binary-operator", "a + b"), ("power", "a ** b"), ("boolean-operator", "a or b"), ("comparison", "a < b"),
+                 ("unary-minus", "-a"), ("not", "not a"), ("conditional", "a if b else c"), ("lambda", "lambda: a"), ("await", "await a"), ("integer", "1"), ("float", "1.5"),
+                 ("imaginary", "1j"), ("starred", "*a"), ("yield", "yield a"), ("assignment-expression", "a := b"), ("bare-generator", "a for a in b")]
+A_PRIMARY = [("name", "x"), ("string", "'s'"), ("call", "f(a, b)"), ("attribute", "a.b"), ("subscript", "a[b]"), ("list", "[a, b]"), ("dict", "{a: b}"), ("set", "{a, b}"),
+             ("list-comprehension", "[a for a in b]"), ("f-string", "f'{a}'"), ("none", "None")]
+
+
+def gen_is_atom(g):
+    """_is_atom decides which instantiated replacements are spliced in WITHOUT asking whether they need parentheses.  The real function
+    (it depends on `ast` only) is compiled from the source text and evaluated on one sample per kind of expression of Python's grammar:
+    everything that is not a primary (atom, call, attribute reference, subscription) must be sent to the probe."""
+    from pyvc.unit import find_def, segment_sha
+    fn, text = find_def("processing", "_is_atom")
+    g.sha = segment_sha(text, fn)
+    g.lines = [fn.lineno, fn.end_lineno]
+    ns = {"ast": ast}
+    try:
+        exec(compile(ast.Module(body=[fn], type_ignores=[]), "<_is_atom>", "exec"), ns)      # noqa: S102
+        f = ns["_is_atom"]
+        f("x")
+    except Exception as ex:  # noqa: BLE001
+        raise NotGenerated(f"_is_atom cannot be evaluated in isolation: {type(ex).__name__}: {ex}")
+    for label, code in NOT_A_PRIMARY:
+        got = bool(f(code))
+        g.oblige("table", f"needs-the-parenthesisation-probe:{label}", [], z3.BoolVal(not got), fn.lineno,
+                 replay=lambda m, code=code: {"reproduced": True, "input": f"_is_atom({code!r})", "observed": "True: spliced in without asking whether it needs parentheses", "required": "False"})
+    ok = sum(bool(f(code)) for _, code in A_PRIMARY)
+    g.cover("some-primary-is-recognised", [z3.BoolVal(ok > 0)], fn.lineno)
+    g.assumptions.add("Python's expression grammar: only atoms, calls, attribute references and subscriptions bind tighter than every operator (one sample per other kind)")
